@@ -178,6 +178,60 @@ fn main() {
     let log: Log = Arc::new(Mutex::new(Vec::new()));
     let rp = sc["request"]["rp_id"].as_str().unwrap_or("example.com").to_string();
 
+    if sc["op"] == "cbor_duplicates" {
+        // serialise fully populated messages, duplicate one top-level member at a time, decode again
+        use ciborium::value::Value as V;
+        fn dup_accepted<T: serde::Serialize + serde::de::DeserializeOwned>(name: &str, msg: &T, out: &mut Vec<String>) {
+            let mut bytes = Vec::new();
+            ciborium::ser::into_writer(msg, &mut bytes).unwrap();
+            let v: V = ciborium::de::from_reader(bytes.as_slice()).unwrap();
+            let V::Map(entries) = v else { return };
+            for i in 0..entries.len() {
+                let mut e2 = entries.clone();
+                e2.push(entries[i].clone());
+                let mut b2 = Vec::new();
+                ciborium::ser::into_writer(&V::Map(e2), &mut b2).unwrap();
+                if ciborium::de::from_reader::<T, _>(b2.as_slice()).is_ok() {
+                    out.push(format!("{}:{:?}", name, entries[i].0));
+                }
+            }
+        }
+        let mut acc = Vec::new();
+        let info = passkey_types::ctap2::get_info::Response {
+            versions: vec![passkey_types::ctap2::get_info::Version::FIDO_2_0],
+            extensions: Some(vec![passkey_types::ctap2::get_info::Extension::Prf]),
+            aaguid: Aaguid::new_empty(),
+            options: Some(Default::default()),
+            max_msg_size: std::num::NonZeroU128::new(1200),
+            pin_protocols: Some(vec![1]),
+            transports: Some(vec![webauthn::AuthenticatorTransport::Usb, webauthn::AuthenticatorTransport::Nfc]),
+        };
+        dup_accepted("get_info::Response", &info, &mut acc);
+        let ga = get_assertion::Request {
+            rp_id: "example.com".into(),
+            client_data_hash: vec![7u8; 32].into(),
+            allow_list: Some(vec![descriptor(&[1u8; 16])]),
+            extensions: None,
+            options: make_credential::Options { rk: false, up: true, uv: true },
+            pin_auth: Some(vec![1u8; 16].into()),
+            pin_protocol: Some(1),
+        };
+        dup_accepted("get_assertion::Request", &ga, &mut acc);
+        let mc = make_credential::Request {
+            client_data_hash: vec![7u8; 32].into(),
+            rp: make_credential::PublicKeyCredentialRpEntity { id: "example.com".into(), name: Some("n".into()) },
+            user: webauthn::PublicKeyCredentialUserEntity { id: vec![9u8; 8].into(), display_name: "d".into(), name: "n".into() },
+            pub_key_cred_params: webauthn::PublicKeyCredentialParameters::default_algorithms(),
+            exclude_list: Some(vec![descriptor(&[1u8; 16])]),
+            extensions: None,
+            options: make_credential::Options { rk: true, up: true, uv: false },
+            pin_auth: Some(vec![1u8; 16].into()),
+            pin_protocol: Some(1),
+        };
+        dup_accepted("make_credential::Request", &mc, &mut acc);
+        println!("E2REPLAY {}", json!({"result": {"accepted": acc}, "log": []}));
+        return;
+    }
     if sc["op"] == "rp_id_valid" {
         // is this name accepted as an RP ID under the shipped public suffix list?
         let v = passkey_client::RpIdVerifier::new(public_suffix::DEFAULT_PROVIDER);
